@@ -7,7 +7,7 @@ import subprocess
 from .. import core
 from ..core import hexb
 
-MODULES = ["Robsd.Props.C08"]
+MODULES = ["Robsd.Props.C08", "Robsd.Props.C08Complete"]
 GENS = ["Consts", "Grammar"]
 MODES = ["robsd", "robsd-cross", "robsd-ports", "robsd-regress", "canvas"]
 
